@@ -209,7 +209,12 @@ type Part struct {
 	Piece   int  `json:"piece,omitempty"`   // max bytes per Read of the source
 	EOFWith bool `json:"eofwith,omitempty"` // last data returned together with io.EOF
 	Zero    bool `json:"zero,omitempty"`    // one (0,nil) read in the middle
+	// Fail: the source fails (an error of its own, not io.EOF) after half of the part; the
+	// application then closes the writer, sending what it had written so far
+	Fail bool `json:"source_fails,omitempty"`
 }
+
+var errSource = errors.New("verif: the ReadFrom source failed")
 
 type WStep struct {
 	Kind     int    `json:"k"`
@@ -258,6 +263,7 @@ type ProgOpts struct {
 	Invalid     bool // include invalid requests
 	Deadlines   bool // include SetWriteDeadline steps with unique instants
 	NoCtlViaMsg bool // do not send control messages through WriteMessage/NextWriter
+	FailSource  bool // include ReadFrom parts whose source fails
 	BadJSON     bool // include WriteJSON calls with unencodable values
 }
 
@@ -394,6 +400,16 @@ func genProgram(r *gen.R, cfg Cfg, o ProgOpts) []WStep {
 			s.payload = r.Payload(s.Class, s.Size)
 			if s.Kind == WNext {
 				s.Parts = genParts(r, s.Size)
+				if o.FailSource && r.Chance(1, 4) {
+					for i := range s.Parts {
+						if s.Parts[i].How == PartReadFrom && s.Parts[i].N >= 2 {
+							s.Parts[i].Fail = true
+							s.Parts = s.Parts[:i+1]
+							s.Explicit = true
+							break
+						}
+					}
+				}
 			}
 		}
 		prog = append(prog, s)
@@ -412,6 +428,8 @@ func genProgram(r *gen.R, cfg Cfg, o ProgOpts) []WStep {
 
 // oddReader feeds ReadFrom in awkward ways.
 type oddReader struct {
+	failAt  int // > 0: return errSource once this many bytes have been delivered
+	given   int
 	data    []byte
 	piece   int
 	eofWith bool
@@ -424,6 +442,9 @@ func (o *oddReader) Read(p []byte) (int, error) {
 	if o.zero && o.calls == 2 {
 		return 0, nil
 	}
+	if o.failAt > 0 && o.given >= o.failAt {
+		return 0, errSource
+	}
 	if len(o.data) == 0 {
 		return 0, io.EOF
 	}
@@ -431,6 +452,10 @@ func (o *oddReader) Read(p []byte) (int, error) {
 	if n > o.piece {
 		n = o.piece
 	}
+	if o.failAt > 0 && n > o.failAt-o.given {
+		n = o.failAt - o.given
+	}
+	o.given += n
 	if n > len(o.data) {
 		n = len(o.data)
 	}
@@ -634,6 +659,30 @@ func (w *Writer) Do(i int, s WStep) StepResult {
 			case PartWriteString:
 				werr = call("WriteString", func() error { var e error; n, e = io.WriteString(wr, string(chunk)); return e })
 			case PartReadFrom:
+				if p.Fail {
+					// the source breaks half-way: the writer itself is healthy; the application
+					// sends what it has by closing the writer
+					half := len(chunk) / 2
+					var n64 int64
+					serr := call("ReadFrom(failing source)", func() error {
+						var e error
+						n64, e = io.Copy(wr, onlyReader{&oddReader{data: chunk, piece: p.Piece, failAt: half}})
+						if e == errSource {
+							return nil // as far as the connection is concerned nothing failed
+						}
+						if e == nil {
+							return fmt.Errorf("io.Copy swallowed the source's error")
+						}
+						return e
+					})
+					if serr == nil && int(n64) != half {
+						serr = fmt.Errorf("short write %d of %d without error", n64, half)
+						res.Note = serr.Error()
+					}
+					snt.Data = append([]byte(nil), s.payload[:off-p.N+half]...)
+					n, werr = len(chunk), serr
+					break
+				}
 				werr = call("ReadFrom", func() error {
 					n64, e := io.Copy(wr, onlyReader{&oddReader{data: chunk, piece: p.Piece, eofWith: p.EOFWith, zero: p.Zero}})
 					n = int(n64)
